@@ -28,4 +28,32 @@ def elimContractsB (cfg : Config) (d : Dfa) : Bool :=
   decide (1 ≤ d.nodes) && plainLabelsB d && dfsOkB d d.dfs &&
     noSelfB cfg (elimInit cfg d d.dfs) (List.range d.nodes).reverse
 
+namespace Dfa
+
+/-- representative of the class of `s` -/
+def repOf (p : List Block) (pick : Block → Nat) (s : Nat) : Nat := pick (p.getD (classOf p s) [])
+
+/-- executable stability conditions of a partition w.r.t. an automaton and a choice of representatives -/
+def quotientOkB (d : Dfa) (pick : Block → Nat) (p : List Block) : Bool :=
+  let states := List.range d.nodes
+  decide (d.init < d.nodes) &&
+  d.edges.all (fun e => decide (e.src < d.nodes) && decide (e.dst < d.nodes)) &&
+  -- every state lies in the class `classOf` assigns to it
+  states.all (fun s => (p.getD (classOf p s) []).contains s) &&
+  -- the representative of a class is mapped to that class
+  (p.zipIdx).all (fun bk => decide (classOf p (pick bk.1) = bk.2) && decide (pick bk.1 < d.nodes)) &&
+  -- a state and the representative of its class have the same labelled transitions up to classes, and the same finality
+  states.all (fun s =>
+    let r := repOf p pick s
+    (d.outEdges s).all (fun e => (d.outEdges r).any (fun e' => e'.label == e.label && classOf p e'.dst == classOf p e.dst)) &&
+    (d.outEdges r).all (fun e' => (d.outEdges s).any (fun e => e.label == e'.label && classOf p e.dst == classOf p e'.dst)) &&
+    d.isFinal s == d.isFinal r)
+
+/-- the stability check on the partition the refinement loop of `minimize` produced -/
+def minimizeContractB (d : Dfa) (pick : Block → Nat) : Bool :=
+  match minimizePartition d with
+  | some p => quotientOkB d pick p
+  | none => false
+
+end Dfa
 end Grexv
